@@ -350,8 +350,6 @@ def flat(node):
 def stable(node, limit=70):
     """Text of a node for use in instance keys: function locals are replaced by v0, v1, ... in order of appearance, so
     that the key of a construct (and with it a known finding) survives the renaming of a local variable."""
-    import copy
-
     from . import pm
 
     try:
@@ -359,8 +357,15 @@ def stable(node, limit=70):
     except Exception:
         locs = set()
     names = {}
-    c = copy.deepcopy(node)
-    for n in ast.walk(c):
+    touched = []
+    for n in ast.walk(node):
         if isinstance(n, ast.Name) and n.id in locs:
-            n.id = names.setdefault(n.id, f"v{len(names)}")
-    return " ".join(unparse(c).split())[:limit]
+            touched.append((n, n.id))
+    touched.sort(key=lambda t: (getattr(t[0], "lineno", 0), getattr(t[0], "col_offset", 0)))
+    try:
+        for n, old in touched:
+            n.id = names.setdefault(old, f"v{len(names)}")
+        return " ".join(unparse(node).split())[:limit]
+    finally:
+        for n, old in touched:
+            n.id = old
